@@ -4,7 +4,7 @@ From SV Require Import Base.Prelude Model.Pager.
 Require Extraction.
 Require Import ExtrOcamlBasic ExtrOcamlString.
 Extraction Language OCaml.
-Extraction "../ocaml/c07/model.ml" seq_run obs_items req_key accept_full accept_drop coord_ok follows fits last_opt single_run accept_full_timeout early_timeouts ctor_fails prop_full_ok prop_drop_ok
+Extraction "../ocaml/c07/model.ml" seq_run obs_items req_key accept_full accept_drop coord_ok follows fits last_opt single_run accept_single prop_single_ok accept_drop_timeout accept_full_timeout early_timeouts ctor_fails prop_full_ok prop_drop_ok
   expected known_ignored fail_point plans_ok good_script start spec_stream spec_error_stream spec_requests
   script_pages e_timeout e_unexpected e_empty_plan e_pool e_broken
   Z.of_N. (* Z.of_N only so that the shared conv.ml finds the type z *)
